@@ -45,10 +45,21 @@ def configs(tier):
                 for overwrite in ((1,) if tier == "quick" or backups == -1 else (1, 0)):
                     out.append({"scheme": scheme, "backups": backups, "overwrite": overwrite, "mode": mode, "remove-old": 1,
                                 "plant": 0, "limit": 512, "aux": 1})
+    # file name shapes: no extension (`app` -> `app.1`), dotted stem (`app.v1.log` -> `app.v1.1.log`)
+    for name in ("app", "app.v1.log"):
+        for scheme in ("index", "date", "datetime"):
+            for backups in ((1, -1) if tier == "quick" else (0, 1, 2, -1)):
+                for mode in ("a", "w"):
+                    out.append({"scheme": scheme, "backups": backups, "overwrite": 1, "mode": mode, "remove-old": 1,
+                                "plant": 0, "limit": 512, "name": name})
     return out
 
 
 def depth_for(cfg, tier):
+    if cfg.get("name"):
+        if cfg["scheme"] == "index":
+            return 5 if tier == "quick" else 7
+        return 3 if tier == "quick" else 4
     if cfg.get("aux"):
         if cfg["scheme"] == "index":
             return 5 if tier == "quick" else 6
@@ -79,7 +90,7 @@ def run_rot(ctx, exe, cfgs, alphabet, name):
 def run(ctx):
     ctx.rule = ("all write/restart histories up to the depth bound (sizes 200/312/313/600 against limit 512, clock steps "
                 "0/1s/1day, restarts in append and write mode) per configuration (scheme x backups x overwrite x mode x "
-                "clean-up x planted look-alike files x a second rotating sink with a dotted-extension stem in the same directory); after every step the directory (file name -> statement ids) must "
+                "clean-up x planted look-alike files x a second rotating sink with a dotted-extension stem in the same directory x file name shape: with extension, without, dotted stem); after every step the directory (file name -> statement ids) must "
                 "equal a reference model of the rotation semantics; distinct = canonical states (directory + sink fields)")
     exe = vf.build("rot", SRC, FLAGS)
     ctx.set_deadline(240 if ctx.tier == "quick" else 1800)
